@@ -1,5 +1,5 @@
 """Contracts for lib/Crypto/Util/asn1.py (C13, C08, C04)."""
-from vf.pyvc.contracts import Contract, ClassContract
+from vf.pyvc.contracts import Contract, ClassContract, lemma_contract
 from .base import base_registry
 
 A = 'Crypto.Util.asn1.'
@@ -50,6 +50,55 @@ def registry():
                               'payload': 'self.payload == (spec.der.tlv_content(spec.der.tlv_content(der_encoded)) if hasattr(self, "_inner_tag_octet") else spec.der.tlv_content(der_encoded))'},
                      modifies=['self.payload', 'self._tag_octet'],
                      opaque=['spec.der.tlv_ok', 'spec.der.tlv_size', 'spec.der.tlv_content', 'spec.der.explicit_ok']))
+    # ---------------- DerInteger
+    reg.add(ClassContract(A + 'DerInteger',
+                          fields={'_tag_octet': 'int[0..255]|none', 'payload?': 'bytes', '_inner_tag_octet?': 'int[0..255]', 'value?': 'int'}))
+    ok = ('(spec.der.explicit_ok(%s, self._tag_octet, self._inner_tag_octet) if hasattr(self, "_inner_tag_octet") '
+          'else spec.der.tlv_ok(%s, self._tag_octet))' % (rem, rem))
+    content = ('(spec.der.tlv_content(spec.der.tlv_content(%s)) if hasattr(self, "_inner_tag_octet") else spec.der.tlv_content(%s))')
+    reg.add(Contract(A + 'DerInteger._decodeFromStream', params={'s': S, 'strict': 'bool'},
+                     raises={'ValueError': ('iff', 'not %s or (strict and (len(%s) == 0 or (len(%s) >= 2 and %s[0] == 0 and %s[1] < 128)))'
+                                            % (ok, content % (rem, rem), content % (rem, rem), content % (rem, rem), content % (rem, rem)))},
+                     ensures={'payload': 'self.payload == ' + content % (orem, orem),
+                              'value': 'self.value == spec.der.int_value(self.payload)',
+                              'consumed': 's._index == old(s._index) + spec.der.tlv_size(%s)' % orem},
+                     modifies=['s._index', 'self.payload', 'self._tag_octet', 'self.value'],
+                     loops={0: {'invariant': ['self.value == be(self.payload[:_k])', 'bits == pow2(8 * _k)'], 'index': '_k'}},
+                     opaque=['spec.der.tlv_ok', 'spec.der.tlv_size', 'spec.der.tlv_content', 'spec.der.explicit_ok'],
+                     options={'be_unfold': True}))
+    reg.add(Contract(A + 'DerObject._definite_form', params={'length': 'int[0..18446744073709551615]'},
+                     ensures={'ok': 'spec.der.length_ok(result)', 'value': 'spec.der.length_value(result) == length',
+                              'octets': 'spec.der.length_octets(result) == len(result)'},
+                     modifies=[], result='bytes', options={'be_unfold': True}))
+    lemma_contract(reg, 'spec.der.lemma_len_prefix', {'d': 'bytes', 'p': 'bytes'})
+    lemma_contract(reg, 'spec.der.lemma_tlv_build', {'t': 'int', 'd': 'bytes', 'p': 'bytes'},
+                   opaque=['spec.der.length_ok', 'spec.der.length_octets', 'spec.der.length_value'])
+    LEN = ['spec.der.length_ok', 'spec.der.length_octets', 'spec.der.length_value']
+    TLV = ['spec.der.tlv_ok', 'spec.der.tlv_size', 'spec.der.tlv_content', 'spec.der.explicit_ok']
+    # non-explicit objects: result == tag || definite(len payload) || payload
+    reg.add(Contract(A + 'DerObject.encode', params={},
+                     requires=['self._tag_octet is not None', 'hasattr(self, "payload")', 'not hasattr(self, "_inner_tag_octet")',
+                               'len(self.payload) < 2 ** 64'],
+                     ensures={'tlv': 'spec.der.tlv_ok(result, self._tag_octet) and spec.der.tlv_size(result) == len(result)',
+                              'content': 'spec.der.tlv_content(result) == self.payload'},
+                     instances={'exit': ['spec.der.lemma_len_prefix(result[1:len(result) - len(self.payload)], self.payload)',
+                                         'spec.der.lemma_tlv_build(self._tag_octet, result[1:len(result) - len(self.payload)], self.payload)']},
+                     lemmas={'exit': {'shape': 'result == bytes([self._tag_octet]) + result[1:len(result) - len(self.payload)] + self.payload',
+                                      'len_ok': 'spec.der.length_ok(result[1:len(result) - len(self.payload)]) and '
+                                                'spec.der.length_octets(result[1:len(result) - len(self.payload)]) == len(result) - len(self.payload) - 1 and '
+                                                'spec.der.length_value(result[1:len(result) - len(self.payload)]) == len(self.payload)'}},
+                     opaque=LEN + TLV, modifies=[], result='bytes'))
+    # NOT PROVED (unregistered): DerInteger.encode -- the invariant value == number*256**len(payload) + be(payload) is non-linear
+    # (number * pow2(...)); preservation times out in z3 with the ground be_cons/pow2 instances tried so far.
+    reg.add(Contract(A + 'DerInteger.encode', params={}, requires=['self._tag_octet is not None', 'hasattr(self, "value")'],
+                     ensures={'value': 'spec.der.int_value(self.payload) == self.value',
+                              'minimal': 'spec.der.int_minimal(self.payload)'},
+                     modifies=['self.payload'], result='bytes',
+                     loops={0: {'invariant': ['self.value == number * pow2(8 * len(self.payload)) + be(self.payload)',
+                                              'len(self.payload) >= 1 ==> (number < -1 or number > 0 or (number == 0 and self.payload[0] >= 128) or (number == -1 and self.payload[0] < 128))'],
+                                'havoc': ['self.payload']}},
+                     inline=[A + 'DerObject.encode'] if False else [],
+                     options={'be_unfold': True}))
     return reg
 
 
@@ -58,4 +107,6 @@ def units(prop, tier):
     if prop != 'C13':
         return []
     return [pyvc_unit(prop, 'asn1.' + t, registry, [A + t])
-            for t in ['BytesIO_EOF.read', 'BytesIO_EOF.read_byte', 'DerObject._decodeLen', 'DerObject._decodeFromStream', 'DerObject.decode']]
+            for t in ['BytesIO_EOF.read', 'BytesIO_EOF.read_byte', 'DerObject._decodeLen', 'DerObject._decodeFromStream', 'DerObject.decode',
+                      'DerInteger._decodeFromStream', 'DerObject._definite_form', 'DerObject.encode']] + \
+           [pyvc_unit(prop, 'asn1.lemma.' + t, registry, ['spec.der.' + t]) for t in ['lemma_len_prefix', 'lemma_tlv_build']]
